@@ -14,7 +14,7 @@ use rsdd::constants::primes;
 use rsdd::repr::{BddPtr, DDNNFPtr, SddPtr, VarLabel, WmcParams};
 use rsdd::util::semirings::*;
 use serde_json::{json, Value};
-use std::collections::HashMap;
+
 
 /// oracle values: the harness's own exact arithmetic for every shipped semiring
 #[derive(Clone, Debug)]
@@ -315,12 +315,16 @@ impl<T: Sem> Suite<T> {
             }
             prod = nx;
         }
+        // the k-th table is built through construction history k (from a map, filled in ascending /
+        // descending order, created with other weights and overwritten, ...): all of them must
+        // end in the same table
         let sets = prod
             .into_iter()
             .step_by(stride.max(1))
-            .map(|w| {
-                let m: HashMap<VarLabel, (T, T)> = w.iter().enumerate().map(|(v, (l, h))| (VarLabel::new(v as u64), (T::from_o(l), T::from_o(h)))).collect();
-                (w, WmcParams::new(m))
+            .enumerate()
+            .map(|(k, w)| {
+                let tw: Vec<(T, T)> = w.iter().map(|(l, h)| (T::from_o(l), T::from_o(h))).collect();
+                (w, crate::props::wparams::build_params(&tw, k))
             })
             .collect();
         Suite { sets }
@@ -469,6 +473,142 @@ fn depends_on_count(f: TT, n: usize, order: &[usize], pos: usize, w: &[(f64, f64
     w[v].0 * depends_on_count(tt::cofactor(f, v, false, n), n, order, p + 1, w) + w[v].1 * depends_on_count(tt::cofactor(f, v, true, n), n, order, p + 1, w)
 }
 
+/// Weight tables have histories: every `set_weight` sequence of length <= depth (labels 0..3, so a
+/// 3-variable table is also grown by one label; three weight pairs, one of them normalised) from
+/// three initial tables (empty, two built from maps) is run on the real `WmcParams` against a
+/// plain map. After every step `var_weight` of every set label is compared, and as soon as labels
+/// 0..2 are set a family of diagrams is counted with the table: plain BDDs against the depends-on
+/// recursion, their smoothed versions against the brute-force sum.
+fn table_histories(ctx: &Ctx) -> Report {
+    let mut r = Report::default();
+    r.exhaustive = true;
+    let n = 3usize;
+    let order = vec![1usize, 0, 2];
+    let b = small_builder(&order, 2);
+    let mut diags: Vec<(u64, BddPtr, BddPtr)> = Vec::new();
+    for f in (0u64..256).step_by(ctx.tier.pick(16, 4)).chain([0x96u64, 0x0f, 0xaa, 0xf0, 0xe8]) {
+        let p = build_bdd(&b, f, n);
+        if bdd_tt(p, n) != f {
+            continue;
+        }
+        let sp = match guarded(|| b.smooth(p, n)) {
+            Ok(x) if bdd_tt(x, n) == f => x,
+            _ => continue, // smoothing defects are C08's; here the diagram is only an instrument
+        };
+        diags.push((f, p, sp));
+    }
+    let alpha: [(f64, f64); 3] = [(1.0, 2.0), (3.0, 5.0), (0.25, 0.75)];
+    let rs = |w: (f64, f64)| (RealSemiring(w.0), RealSemiring(w.1));
+    let depth = ctx.tier.pick(3, 4);
+    struct Env<'x, 'a> {
+        diags: &'x [(u64, BddPtr<'a>, BddPtr<'a>)],
+        alpha: [(f64, f64); 3],
+        order: &'x [usize],
+        n: usize,
+        r: &'x mut Report,
+        init: usize,
+    }
+    fn observe(e: &mut Env, p: &WmcParams<RealSemiring>, model: &[Option<(f64, f64)>], hist: &[(usize, usize)]) {
+        let n = e.n;
+        let case = json!({"kind": "weight_table", "initial_table": e.init, "history": hist.iter().map(|(l, a)| json!({"set_weight": {"label": l, "pair": e.alpha[*a]}})).collect::<Vec<_>>()});
+        for (l, m) in model.iter().enumerate() {
+            if let Some(m) = m {
+                e.r.evaluations += 1;
+                match guarded(|| *p.var_weight(VarLabel::new(l as u64))) {
+                    Ok((lo, hi)) => {
+                        if (lo.0, hi.0) != *m {
+                            e.r.violation("weight-table:var-weight", format!("initial table {} then {:?}: var_weight(x{}) = ({}, {}), last set to {:?}", e.init, hist, l, lo.0, hi.0, m), case.clone());
+                            return;
+                        }
+                    }
+                    Err(p) => {
+                        e.r.violation("weight-table:panic", format!("initial table {} then {:?}: var_weight(x{}) panicked: {}", e.init, hist, l, p), case.clone());
+                        return;
+                    }
+                }
+            }
+        }
+        if model.iter().take(n).all(|m| m.is_some()) {
+            let w: Vec<(f64, f64)> = model.iter().take(n).map(|m| m.unwrap()).collect();
+            for &(f, plain, smoothed) in e.diags.iter() {
+                e.r.evaluations += 2;
+                let want_plain = depends_on_count(f, n, e.order, 0, &w);
+                let mut want_smooth = 0.0;
+                for a in 0..(1usize << n) {
+                    if tt::eval(f, a) {
+                        let mut x = 1.0;
+                        for v in 0..n {
+                            x *= if (a >> v) & 1 == 1 { w[v].1 } else { w[v].0 };
+                        }
+                        want_smooth += x;
+                    }
+                }
+                match guarded(|| (plain.unsmoothed_wmc(p).0, smoothed.unsmoothed_wmc(p).0)) {
+                    Ok((gp, gs)) => {
+                        if gp != want_plain || gs != want_smooth {
+                            e.r.violation("weight-table:count", format!("initial table {} then {:?} (weights now {:?}): function {:#x} counts {} (plain BDD, expected {}) and {} (smoothed, expected {})", e.init, hist, w, f, gp, want_plain, gs, want_smooth), case.clone());
+                            return;
+                        }
+                    }
+                    Err(pn) => {
+                        e.r.violation("weight-table:panic", format!("initial table {} then {:?}: counting {:#x} panicked: {}", e.init, hist, f, pn), case.clone());
+                        return;
+                    }
+                }
+            }
+        }
+    }
+    fn rec(e: &mut Env, p: &WmcParams<RealSemiring>, model: &mut Vec<Option<(f64, f64)>>, hist: &mut Vec<(usize, usize)>, left: usize) {
+        if left == 0 || e.r.n_violations > 8 {
+            return;
+        }
+        for l in 0..=e.n {
+            for a in 0..3 {
+                let mut q = p.clone();
+                let w = e.alpha[a];
+                if guarded(|| q.set_weight(VarLabel::new(l as u64), RealSemiring(w.0), RealSemiring(w.1))).is_err() {
+                    e.r.violation("weight-table:panic", format!("initial table {} then {:?}: set_weight(x{}) panicked", e.init, hist, l), json!({"kind": "weight_table"}));
+                    continue;
+                }
+                let old = model[l];
+                model[l] = Some(w);
+                hist.push((l, a));
+                e.r.transitions += 1;
+                e.r.states += 1;
+                observe(e, &q, model, hist);
+                rec(e, &q, model, hist, left - 1);
+                hist.pop();
+                model[l] = old;
+            }
+        }
+    }
+    for init in 0..3usize {
+        let (p, mut model): (WmcParams<RealSemiring>, Vec<Option<(f64, f64)>>) = match init {
+            0 => (WmcParams::default(), vec![None; n + 1]),
+            1 => {
+                let m: std::collections::HashMap<VarLabel, (RealSemiring, RealSemiring)> = (0..n).map(|v| (VarLabel::new(v as u64), rs(alpha[0]))).collect();
+                let mut md = vec![Some(alpha[0]); n];
+                md.push(None);
+                (WmcParams::new(m), md)
+            }
+            _ => {
+                let m: std::collections::HashMap<VarLabel, (RealSemiring, RealSemiring)> = (0..n).map(|v| (VarLabel::new(v as u64), rs(alpha[(v + 1) % 3]))).collect();
+                let mut md: Vec<Option<(f64, f64)>> = (0..n).map(|v| Some(alpha[(v + 1) % 3])).collect();
+                md.push(None);
+                (WmcParams::new(m), md)
+            }
+        };
+        let mut e = Env { diags: &diags, alpha, order: &order, n, r: &mut r, init };
+        e.r.traces += 1;
+        observe(&mut e, &p, &model, &[]);
+        rec(&mut e, &p, &mut model, &mut Vec::new(), depth);
+    }
+    r.max_depth = depth as u64;
+    r.add_extra("weight_table_histories", r.states);
+    r.bound("weight_table_histories", json!({"alphabet": "set_weight(label 0..3, one of 3 weight pairs)", "depth": depth, "initial_tables": 3, "diagrams_counted_after_every_step": diags.len() * 2}));
+    r
+}
+
 #[derive(Clone)]
 enum Rep {
     Bdd(Vec<usize>),
@@ -511,9 +651,9 @@ fn run_rep(rep: &Rep, n: usize, ctx: &Ctx, fstep: usize) -> Report {
                 }
                 prod = nx;
             }
-            for w in prod.into_iter().step_by(if n >= 5 { 37 } else if n >= 4 { 7 } else { 1 }) {
-                let m: HashMap<VarLabel, (RealSemiring, RealSemiring)> = w.iter().enumerate().map(|(v, &(l, h))| (VarLabel::new(v as u64), (RealSemiring(l), RealSemiring(h)))).collect();
-                arb.push((w, WmcParams::new(m)));
+            for (k, w) in prod.into_iter().step_by(if n >= 5 { 37 } else if n >= 4 { 7 } else { 1 }).enumerate() {
+                let tw: Vec<(RealSemiring, RealSemiring)> = w.iter().map(|&(l, h)| (RealSemiring(l), RealSemiring(h))).collect();
+                arb.push((w, crate::props::wparams::build_params(&tw, k + 1)));
             }
             let mut f = 0;
             while f < total {
@@ -684,6 +824,8 @@ pub fn run(ctx: &Ctx) -> Report {
     items.reverse();
     let r = par_run(ctx, &items, |_, (rp, n, step)| run_rep(rp, *n, ctx, *step));
     rep.merge(r);
+    let th = table_histories(ctx);
+    rep.merge(th);
     rep.distinct_nontrivial = rep.transitions;
     rep.bound("functions", json!(match ctx.tier { Tier::Quick => "all of F(1), F(2), F(3); every 64th function of F(4) for the 24 BDD orders, every 512th for the 120 SDD vtrees; about 100 functions of F(5) on 28 shuffled vtrees and 3 orders", Tier::Thorough => "all of F(1..3); every 8th function of F(4) for the 24 BDD orders, every 32nd for the 120 SDD vtrees; about 600 functions of F(5) on 56 vtrees and 3 orders" }));
     rep.bound("semirings", json!(["RealSemiring", "FiniteField<7>", "FiniteField<U32_TINY>", "FiniteField<U64_LARGEST>", "FiniteField<U128_LARGE_1>", "FiniteField<2^127-1>", "BooleanSemiring", "ExpectedUtility", "Complex", "RationalSemiring(0/1 weights)", "Polynomial<RealSemiring>"]));
@@ -694,6 +836,9 @@ pub fn run(ctx: &Ctx) -> Report {
 }
 
 pub fn replay(ctx: &Ctx, case: &Value) -> Report {
+    if case["kind"].as_str() == Some("weight_table") {
+        return table_histories(ctx);
+    }
     let n = case["n"].as_u64().unwrap_or(3) as usize;
     let rp = &case["rep"];
     let arr = |v: &Value| -> Vec<usize> { v.as_array().map(|a| a.iter().filter_map(|x| x.as_u64()).map(|x| x as usize).collect()).unwrap_or_default() };
